@@ -60,6 +60,27 @@ type msgWriter struct {
 	multiPartWriter [4]*multipart.Writer
 	partWriter      io.Writer
 	writer          io.Writer
+
+	// rawPartHeader makes the headers of a top-level part (depth 0) to be written unfolded, exactly
+	// like multipart.Writer writes them for a nested part. It is set for the S/MIME pre-rendering,
+	// since the pre-rendered top-level part is emitted as nested part of the multipart/signed and
+	// both must be byte-identical.
+	rawPartHeader bool
+}
+
+// writePartHeader writes a header of a top-level part, honoring the rawPartHeader setting.
+//
+// Parameters:
+//   - key: The Header key to be written.
+//   - values: A variadic parameter representing the values associated with the header.
+func (mw *msgWriter) writePartHeader(key Header, values ...string) {
+	if !mw.rawPartHeader {
+		mw.writeHeader(key, values...)
+		return
+	}
+	for _, value := range values {
+		mw.writeString(fmt.Sprintf("%s: %s%s", key, value, SingleNewLine))
+	}
 }
 
 // Write implements the io.Writer interface for msgWriter.
@@ -390,7 +411,7 @@ func (mw *msgWriter) addFiles(files []*File, isAttachment bool) {
 			}
 			sort.Strings(headers)
 			for _, header := range headers {
-				mw.writeHeader(Header(header), file.Header[header]...)
+				mw.writePartHeader(Header(header), file.Header[header]...)
 			}
 			mw.writeString(SingleNewLine)
 		}
@@ -443,10 +464,10 @@ func (mw *msgWriter) writePart(part *Part, charset Charset) {
 
 	if mw.depth == 0 {
 		if part.description != "" {
-			mw.writeHeader(HeaderContentDescription, contentDescription)
+			mw.writePartHeader(HeaderContentDescription, contentDescription)
 		}
-		mw.writeHeader(HeaderContentTransferEnc, contentTransferEnc)
-		mw.writeHeader(HeaderContentType, contentType)
+		mw.writePartHeader(HeaderContentTransferEnc, contentTransferEnc)
+		mw.writePartHeader(HeaderContentType, contentType)
 		mw.writeString(SingleNewLine)
 	}
 	if mw.depth > 0 {
@@ -498,8 +519,9 @@ func (mw *msgWriter) writeHeader(key Header, values ...string) int {
 	buffer.WriteString(string(key))
 	charLength -= len(key)
 	if len(values) == 0 {
-		buffer.WriteString(":\r\n")
-		return lines + 1
+		// A header without values is not written at all, therefore it must not be counted either.
+		// The S/MIME signing relies on the exact number of written header lines.
+		return lines
 	}
 	buffer.WriteString(": ")
 	charLength -= 2
